@@ -13,6 +13,7 @@ hist: Ghost<Seq<Ev>>,   // every successful call received (ghost)
 rst0: Ghost<St>,        // checker state the first call is expected from; set by the creator (ghost)
 em: Ghost<Seq<Ev>>,     // what has been forwarded to the inner hook (ghost)
 it0: Ghost<Seq<Ev>>,    // the inner hook's history when this adapter was created (ghost)
+rel0: Ghost<Rel>,       // relation the incoming script is checked against when the inner hook does not rely; set by the creator (ghost)
 ''', '    ')
 
 i = o.find('impl<D: DiffHook> Replace<D> {')
@@ -22,11 +23,12 @@ pub closed spec fn hist_(&self) -> Seq<Ev> { self.hist@ }
 pub closed spec fn em_(&self) -> Seq<Ev> { self.em@ }
 pub closed spec fn it0_(&self) -> Seq<Ev> { self.it0@ }
 pub closed spec fn rst0_(&self) -> St { self.rst0@ }
+pub closed spec fn rel0_(&self) -> Rel { self.rel0@ }
 pub closed spec fn p_del(&self) -> Option<(usize, usize, usize)> { self.del }
 pub closed spec fn p_ins(&self) -> Option<(usize, usize, usize)> { self.ins }
 pub closed spec fn p_eq(&self) -> Option<(usize, usize, usize)> { self.eq }
 /// the relation the incoming script is checked against
-pub open spec fn rr(&self) -> Rel { if self.inner().relies() { self.inner().rely_rel() } else { rel_true() } }
+pub open spec fn rr(&self) -> Rel { if self.inner().relies() { self.inner().rely_rel() } else { self.rel0_() } }
 /// weak-checker state after everything received
 pub open spec fn rst(&self) -> St { run_rel(self.rr(), self.rst0_(), self.hist_()) }
 pub open spec fn x0(&self) -> Xs { xcanon(self.rst0_().oc, self.rst0_().nc, self.rst0_().oe, self.rst0_().ne, self.rst0_().lvl >= 1) }
@@ -71,13 +73,13 @@ o.before('{', '''
 ''', start=n0, ind='    ')
 i = o.find('eq: None,', n0)
 o.lines[i+1:i+1] = ghost('''
-hist: Ghost(Seq::empty()), rst0: Ghost(arbitrary()), em: Ghost(Seq::empty()), it0: Ghost(d.trace()),
+hist: Ghost(Seq::empty()), rst0: Ghost(arbitrary()), em: Ghost(Seq::empty()), it0: Ghost(d.trace()), rel0: Ghost(arbitrary()),
 ''', '            ')
 o.before('{', '''
     ensures res == self.inner(),
 ''', start=o.find('pub fn into_inner(self)'), ind='    ')
 
-FRAME = '''        final(self).hist_() == old(self).hist_(), final(self).rst0_() == old(self).rst0_(), final(self).it0_() == old(self).it0_(),
+FRAME = '''        final(self).hist_() == old(self).hist_(), final(self).rst0_() == old(self).rst0_(), final(self).it0_() == old(self).it0_(), final(self).rel0_() == old(self).rel0_(),
         hook_frame(old(self).inner(), final(self).inner(), res),'''
 
 # ---- flush_eq
